@@ -65,7 +65,7 @@ class StaticCondensation(Module):
     def _response(self, A):
         self.n = np.shape(A)[0]
         self.module_LinSolve.sig_in[0].state = A[self.f, ...][..., self.f]
-        self.module_LinSolve.sig_in[1].state = A[self.f, ...][..., self.m].todense()
+        self.module_LinSolve.sig_in[1].state = A[self.f, ...][..., self.m].toarray()
         self.module_LinSolve.response()
         self.X = self.module_LinSolve.sig_out[0].state
         return A[self.m, ...][..., self.m] - A[self.m, ...][..., self.f] @ self.X
